@@ -862,7 +862,7 @@ var FieldWriteMap = `
 {{- $isBaseVal := .ValCtx.Type | IsBaseType -}}
 {{- $curFieldMask := .FieldMask -}}
 	{{- if and Features.WithFieldMask (or $isStrKey $isIntKey) }}
-	if !{{.FieldMask}}.All() {
+	if !{{.FieldMask}}.All() || ({{.FieldMask}} != nil && {{.FieldMask}}.IsBlack()) { // a black-list "*" rejects: count what is written
 		l := len({{.Target}})
 		for k := range {{.Target}} {
 			{{- if $isIntKey}}
@@ -886,6 +886,20 @@ var FieldWriteMap = `
 			{{- .KeyCtx.Type | GetTypeIDConstant -}}
 			, thrift.{{- .ValCtx.Type | GetTypeIDConstant -}}
 			, len({{.Target}})); err != nil {
+			return err
+		}
+	}
+	{{- else if Features.WithFieldMask}}
+	{
+		// keys that are neither integers nor strings are all selected or all rejected
+		l := len({{.Target}})
+		if _, ex := {{.FieldMask}}.Int(0); !ex {
+			l = 0
+		}
+		if err := oprot.WriteMapBegin(thrift.
+			{{- .KeyCtx.Type | GetTypeIDConstant -}}
+			, thrift.{{- .ValCtx.Type | GetTypeIDConstant -}}
+			, l); err != nil {
 			return err
 		}
 	}
@@ -935,7 +949,7 @@ var FieldWriteSet = `
 {{- $isBaseVal := .ValCtx.Type | IsBaseType -}}
 {{- $curFieldMask := .FieldMask -}}
 		{{- if Features.WithFieldMask}}
-		if !{{.FieldMask}}.All() {
+		if !{{.FieldMask}}.All() || ({{.FieldMask}} != nil && {{.FieldMask}}.IsBlack()) { // a black-list "*" rejects: count what is written
 			l := len({{.Target}})
 			for i, n := 0, l; i < n; i++ { // n: the loop bound must not shrink with the count
 				if _, ex := {{.FieldMask}}.Int(i); !ex {
@@ -1005,7 +1019,7 @@ var FieldWriteList = `
 {{- $isBaseVal := .ValCtx.Type | IsBaseType -}}
 {{- $curFieldMask := .FieldMask -}}
 	{{- if Features.WithFieldMask}}
-	if !{{.FieldMask}}.All() {
+	if !{{.FieldMask}}.All() || ({{.FieldMask}} != nil && {{.FieldMask}}.IsBlack()) { // a black-list "*" rejects: count what is written
 		l := len({{.Target}})
 		for i, n := 0, l; i < n; i++ { // n: the loop bound must not shrink with the count
 			if _, ex := {{.FieldMask}}.Int(i); !ex {
